@@ -37,6 +37,10 @@ int main(void)
   l3_in_base = 0; l3_lastval = 0;
   EXC_OK("C01: the factory accepts the bytes the encoder produced");
   VF_ASSERT(d != 0, "C01: the factory returns a message");
+  /* the factory's result is "the message it instantiated, unless it threw" - a conditional pointer for the symbolic executor although the
+     exception paths were just shown infeasible: continue with the instantiated object itself (checked: it is the returned one) */
+  VF_ASSERT(d == (MSG*)l3_last_msg, "C01: the factory returns the message it instantiated");
+  __CPROVER_assume(d == (MSG*)l3_last_msg); d = (MSG*)l3_last_msg;
   VF_ASSERT(l3_component_is(vf_header(d), 0, 3), "C01: the decoded header holds the same fields and values, in order");
   VF_ASSERT(l3_component_is((MB*)d, 1, 0), "C01: the decoded body holds the same fields and values, in order");
   VF_ASSERT(vf_pos_count(vf_trailer(d)) == 1, "C01: the decoded trailer holds the checksum field only");
